@@ -387,6 +387,9 @@ void World::monitor_after_undo(Task* t, const Position* pos, const Info* info)
     Snap& s = mon->snaps[ply];
     if (!s.valid) return;
     counters["c03_undo_compares"]++;
+    if (info->_current_move == NO_MOVE) counters["c03_null_move_undo_compares"]++;
+    else if (castling(info->_current_move) != NO_CASTLING) counters["c03_castling_undo_compares"]++;
+    else if (promotion(info->_current_move) != NO_PIECE_KIND) counters["c03_promotion_undo_compares"]++;
     bool heavy = s.heavy && s.heavy_compares < 2;
     if (heavy) { s.heavy_compares++; counters["c03_heavy_compares"]++; }
     std::string d = diff_snap(*pos, s, heavy);
